@@ -591,6 +591,14 @@ func (g *gen) node(hand bool) *node {
 			key := keyPool[g.intn(5)]
 			nd.dict[key] = g.obj(1, false)
 		}
+		// string values in the stream dictionary, direct and nested: they are
+		// encrypted with the key of the stream object
+		if g.intn(3) == 0 {
+			nd.dict["LastModified"] = pdf.String(g.randBytes(14))
+		}
+		if g.intn(3) == 0 {
+			nd.dict["Params"] = pdf.Dict{"ModDate": pdf.String(g.randBytes(10)), "L": pdf.Array{pdf.String(g.randBytes(6)), pdf.Integer(g.intn(9))}}
+		}
 		// dictionaries that look like those of streams exempt from encryption
 		// (the exemptions go by identity, not by looks)
 		switch g.intn(12) {
@@ -1066,8 +1074,28 @@ func runCase(e *common.Env, id string, variant int) {
 	all := append(append([]pdf.Reference{}, g.refs...), extra...)
 
 	src, err := pdf.NewReader(bytes.NewReader(data), int64(len(data)), &pdf.ReaderOptions{Password: spec.pw})
+	srcProblem := ""
 	if err != nil {
-		panic(fmt.Sprintf("harness: cannot open generated source: %v", err))
+		srcProblem = "the Reader cannot open it: " + err.Error()
+	} else if !spec.hand {
+		// every object the Writer was given must be readable (hand-written files may hold broken objects)
+		for _, r := range all {
+			if _, err := src.Get(r, true); err != nil {
+				srcProblem = fmt.Sprintf("object %v cannot be read: %v", r, err)
+				break
+			}
+		}
+	}
+	if srcProblem != "" {
+		if spec.hand {
+			panic("harness: cannot open the hand-written source: " + srcProblem)
+		}
+		// not a defect of the Copier, but of the Writer/Reader pair that prepares the case
+		g.e.Count(true, id+" unreadable source", "source-unreadable")
+		g.e.Fail("source-file-unreadable", "a source file written by pdf.Writer cannot be read back: "+srcProblem,
+			map[string]any{"id": id, "seed": g.e.Seed, "source_version": spec.version.String(), "source_encrypted": spec.pw != "",
+				"source_human_readable": spec.human, "source_metadata": spec.meta, "objects": len(all)})
+		return
 	}
 	if spec.meta > 0 {
 		// the catalog's metadata stream is part of the graph: the one stream that may be exempt by identity
